@@ -134,6 +134,38 @@ fn c09_paired_extend_accumulates_bounded() {
     kani::cover!(len == 3);
     kani::cover!(len == 0);
 }
+// C04 / C09 (concrete samples of different sizes, exactly representable values): whichever way an Unpaired state is fed --
+// from_iter, extend, extend_a + extend_b, element by element, append_pair for the common prefix -- sample A goes to stats_a and
+// sample B to stats_b, nothing else changes, and the state is the one two separate arithmetic states would hold (the frames
+// of these functions are verified for every input by the Verus obligations Unpaired::*; this is their twin on the compiled crate)
+#[kani::proof]
+#[kani::unwind(6)]
+fn c04_unpaired_feeding_routes_concrete() {
+    use crate::mean::StatisticsOps;
+    let a: Vec<f32> = vec![2.0, 4.0, 8.0];
+    let b: Vec<f32> = vec![0.25, 3.0];
+    let mut wa = mean::Arithmetic::<f32>::default();
+    let mut wb = mean::Arithmetic::<f32>::default();
+    let mut i = 0;
+    while i < 3 { assert!(wa.append(a[i]).is_ok()); i += 1; }
+    let mut j = 0;
+    while j < 2 { assert!(wb.append(b[j]).is_ok()); j += 1; }
+    let same = |u: &Unpaired<f32>| arith_bits_f32(&u.stats_a) == arith_bits_f32(&wa) && arith_bits_f32(&u.stats_b) == arith_bits_f32(&wb);
+    let u1 = Unpaired::<f32>::from_iter(&a, &b);
+    assert!(matches!(&u1, Ok(u) if same(u)), "from_iter");
+    let mut u2 = Unpaired::<f32>::default();
+    assert!(u2.extend(&a, &b).is_ok() && same(&u2), "extend");
+    let mut u3 = Unpaired::<f32>::default();
+    assert!(u3.extend_b(&b).is_ok() && arith_bits_f32(&u3.stats_a) == arith_bits_f32(&mean::Arithmetic::<f32>::default()), "extend_b must not touch sample A");
+    assert!(u3.extend_a(&a).is_ok() && same(&u3), "extend_a / extend_b");
+    let mut u4 = Unpaired::<f32>::default();
+    assert!(u4.append_pair(a[0], b[0]).is_ok() && u4.append_pair(a[1], b[1]).is_ok() && u4.append_a(a[2]).is_ok() && same(&u4), "append_pair / append_a");
+    let mut u5 = Unpaired::<f32>::default();
+    assert!(u5.append_b(b[0]).is_ok() && u5.stats_a.sample_count() == 0 && u5.stats_b.sample_count() == 1, "append_b must not touch sample A");
+    let u6 = Unpaired::new(wa, wb);
+    assert!(same(&u6) && arith_bits_f32(u6.stats_a()) == arith_bits_f32(&wa) && arith_bits_f32(u6.stats_b()) == arith_bits_f32(&wb), "new / stats_a / stats_b");
+    kani::cover!(true);
+}
 // the sign of the difference: a_i - b_i (symbolic values, one pair)
 #[kani::proof]
 fn c04_paired_append_pair_is_a_minus_b() {
